@@ -554,6 +554,11 @@ func (x ExtendedReport) MarshalSize() int {
 func (x ExtendedReport) Marshal() ([]byte, error) {
 	for _, p := range x.Reports {
 		p.setupBlockHeader()
+		// every report block must be a whole number of 32-bit words (RFC 3611, section 3);
+		// an odd number of RLE chunks needs a terminating null chunk
+		if wireSize(p)%4 != 0 {
+			return []byte{}, errBadLength
+		}
 	}
 
 	length := wireSize(x)
